@@ -20,7 +20,7 @@ type cniRequestJSON struct {
 func (w *World) newContainer(p *PodDef) *Container {
 	seq := w.made[p.Idx]
 	w.made[p.Idx]++
-	c := &Container{ID: hexID(w.cfg.ScriptSeed, p.Idx, seq), Pod: p, Seq: seq, Phase: "new", Chains: map[string]bool{}}
+	c := &Container{ID: hexID(w.cfg.ScriptSeed, p.Idx, seq), Pod: p, Seq: seq, Phase: "new"}
 	c.State = "running"
 	if w.cfg.Containerd {
 		c.State = "ready"
@@ -56,8 +56,14 @@ func (w *World) spawnRequest(c *Container, cmd string) *Request {
 	body, _ := json.Marshal(cniRequestJSON{Env: env, Config: []byte(`{"cniVersion":"0.2.0","name":"galaxy","type":"galaxy-sdn"}`)})
 	if w.armed("C14") {
 		r.before = w.Kern.Lines("nat")
-		if c.Baseline == nil {
-			c.Baseline = multiset(r.before)
+		if w.podBase[c.Pod.Idx] == nil {
+			w.podBase[c.Pod.Idx] = multiset(r.before)
+		}
+	}
+	// requests of the same pod that overlap are judged as a pair, not one by one
+	for _, o := range w.inflight {
+		if o != r && !o.Done && o.C.Pod == c.Pod {
+			o.overlap, r.overlap = true, true
 		}
 	}
 	inst := w.inst
@@ -120,6 +126,19 @@ func (w *World) doOp() {
 	if len(pods) > 0 {
 		kinds = append(kinds, "cni", "cni", "cni")
 	}
+	var earlier []*Container
+	if w.prof.Overlap && len(w.inflight) < w.maxInfl+1 {
+		// kubelet's container GC / PLEG cleanup stops sandboxes that are no longer the pod's current one: a retry of
+		// a failed teardown, or one more (late) DEL of a sandbox that was torn down already
+		for _, x := range w.conts {
+			if x != w.cur[x.Pod.Idx] && x.Busy == nil && !x.Abandoned && ((x.Phase == "delfailed" && x.DelTries < 8) || (x.Phase == "down" && x.LateDels < 2)) {
+				earlier = append(earlier, x)
+			}
+		}
+		if len(earlier) > 0 {
+			kinds = append(kinds, "latedel")
+		}
+	}
 	if w.prof.GC {
 		if len(w.gcBusy) == 0 {
 			kinds = append(kinds, "gc")
@@ -154,6 +173,11 @@ func (w *World) doOp() {
 	case "cni":
 		p := pods[w.C.Choose(len(pods))]
 		w.podOp(p)
+	case "latedel":
+		x := earlier[w.C.Choose(len(earlier))]
+		x.LateDels++
+		w.S.Stat("op.late-del-of-earlier-sandbox")
+		w.spawnRequest(x, "DEL")
 	case "gc":
 		w.startGCRound()
 	case "state":
@@ -213,6 +237,13 @@ func (w *World) podOp(p *PodDef) {
 			w.setState(c, w.deadState()) // kubelet stops the sandbox, then calls DEL
 		}
 		w.spawnRequest(c, "DEL")
+		if w.prof.Overlap && w.made[p.Idx] < p.Sandboxes && w.C.Prob(1, 3) {
+			// the sandbox is dead: its teardown comes from the cleanup goroutine while the pod worker already sets up
+			// the replacement sandbox of the same pod
+			w.S.Stat("op.overlapping-del-add")
+			w.summary = append(w.summary, fmt.Sprintf("overlap:p%d", p.Idx))
+			w.spawnRequest(w.newContainer(p), "ADD")
+		}
 	case "after":
 		c := w.cur[p.Idx]
 		if w.C.Prob(1, 3) {
@@ -290,7 +321,16 @@ func (w *World) requestEnded(r *Request, killed bool) {
 			if !w.armed("C12") {
 				c.Tainted = false // everything of the container is gone: later requests are judged afresh
 			}
-			w.kubeletStatus(c, "")
+			// the pod status follows the pod's current sandbox, not an earlier one that is being cleaned up
+			otherUp := false
+			for _, x := range w.conts {
+				if x != c && x.Pod == c.Pod && x.Phase == "up" {
+					otherUp = true
+				}
+			}
+			if !otherUp {
+				w.kubeletStatus(c, "")
+			}
 			w.S.Stat("cni.del.ok")
 		} else {
 			c.Phase = "delfailed"
@@ -418,6 +458,13 @@ func (w *World) handedOut(c *Container) []Mapping {
 func (w *World) onReady() {
 	if w.armed("C14") {
 		w.oracleC14Ready()
+	}
+	// a start-time synchronisation installs the mappings of every pod that has an IP in the API server; for a sandbox
+	// that was dead already these rules are not something the container left behind (C17 makes no claim about them)
+	for _, c := range w.conts {
+		if w.starts > 1 && len(c.Mappings) > 0 && w.truthDead(c.ID) {
+			c.resynced = true
+		}
 	}
 	// ports of pods that are up were re-opened by the start-up code under this incarnation
 	for _, c := range w.conts {
